@@ -41,6 +41,18 @@ pub fn rx(tier: Tier, segs: usize, lens: Vec<usize>, depth: usize) -> Driver {
     Driver { name: format!("rx-{segs}seg-lens{lens:?}"), cfg, prefix: vec![], alphabet, depth, state_cap: tier.pick(400_000, 6_000_000) }
 }
 
+/// Receiver whose segment size has grown beyond the initial one (link MTU 700, the peer sends 552-byte
+/// payloads into a 1200-byte buffer): the window rounds to zero below the *current* segment size.
+pub fn rx_grown_mss(tier: Tier, depth: usize) -> Driver {
+    let mut d = rx(tier, 2, vec![552, 100], depth);
+    d.name = "rx-grown-mss".into();
+    d.cfg.link_mtu = 700;
+    d.cfg.rx_buf = 1200;
+    // two reassembly slots (1200 / 528): a packet two ahead of the expected one does not fit whatever its size
+    d.alphabet.retain(|a| *a != data(2));
+    d
+}
+
 /// Receiving while our own direction is already closed (FIN sent and acknowledged).
 pub fn rx_halfclosed(tier: Tier, depth: usize) -> Driver {
     let mut d = rx(tier, 2, vec![MSS], depth);
@@ -630,6 +642,7 @@ pub fn run_and_report(ctx: &Ctx, d: &Driver, out: &mut Outcome) {
 /// every driver by name (debugging aid: `utpmc solo-debug <driver> '[0,2,8]'`)
 pub fn all_drivers(tier: Tier) -> Vec<Driver> {
     let mut v = vec![rx(tier, 2, vec![MSS], 6), rx(tier, 4, vec![MSS, 1], 6), rx(tier, 4, vec![1, MSS], 6), rx(tier, 3, vec![MSS - 1], 6), rx_halfclosed(tier, 6), rx_rude(tier, 6)];
+    v.push(rx_grown_mss(tier, 6));
     v.push(rx_after_fin(tier, false, 5));
     v.push(rx_after_fin(tier, true, 5));
     v.push(tx_window(tier, true, 10, 6));
